@@ -283,6 +283,16 @@ namespace sbepp
         (begin) && ((begin) <= (end))              \
         && (((offset) + (size)) <= static_cast<std::size_t>((end) - (begin))))
 
+#ifdef SBEPP_VERIF
+// Verification hook (add-only, compiled out unless SBEPP_VERIF is defined):
+// counts the validation steps of `size_bytes_checked`. A harness defines
+// `SBEPP_VERIF_STEP()` before including this header.
+#    define SBEPP_VERIF_HAS_STEP_HOOK 1
+#    ifndef SBEPP_VERIF_STEP
+#        define SBEPP_VERIF_STEP() ((void)0)
+#    endif
+#endif
+
 //! @brief The main `sbepp` namespace
 namespace sbepp
 {
@@ -5624,6 +5634,9 @@ public:
     template<typename T, typename Cursor, typename Tag>
     SBEPP_CPP14_CONSTEXPR bool on_group(T g, Cursor& c, Tag) noexcept
     {
+#ifdef SBEPP_VERIF
+        SBEPP_VERIF_STEP();
+#endif
         const auto header = sbepp::get_header(g);
         const auto header_size = sbepp::size_bytes(header);
         if(!validate_and_subtract(header_size))
@@ -5642,6 +5655,9 @@ public:
     template<typename T, typename Cursor>
     SBEPP_CPP14_CONSTEXPR bool on_entry(T e, Cursor& c) noexcept
     {
+#ifdef SBEPP_VERIF
+        SBEPP_VERIF_STEP();
+#endif
         if(!validate_and_subtract(group_block_length))
         {
             return true;
@@ -5691,6 +5707,9 @@ private:
     SBEPP_CPP14_CONSTEXPR bool
         validate_and_subtract(const std::size_t n) noexcept
     {
+#ifdef SBEPP_VERIF
+        SBEPP_VERIF_STEP();
+#endif
         if(size < n)
         {
             valid = false;
